@@ -100,6 +100,18 @@ theorem missing_value_exceeds_all_before (x : String × Option Int) (pre post : 
 
 /-! ### default, units, scoping, restrictions -/
 
+/-- **a mandatory leaf (a leaf-list with min-elements above 0) does not take the default of its type** -/
+theorem required_leaf_no_type_default (mods : List (String × List Typedef)) (fuel : Nat) (chain : List (List Typedef)) (t : TExpr)
+    (uu : Option String) (e : Eff) (h : leafEff mods fuel chain t none uu true = some e) : e.dflt = none := by
+  unfold leafEff at h
+  cases hd : derive mods fuel chain t with
+  | none => simp [hd] at h
+  | some x =>
+    cases x
+    simp [hd] at h
+    subst h
+    rfl
+
 /-- **what the leaf states wins** over anything the typedef chain gives -/
 theorem leaf_statement_wins (mods : List (String × List Typedef)) (fuel : Nat) (chain : List (List Typedef)) (t : TExpr)
     (d u : String) (du uu : Option String) (e : Eff) (h : leafEff mods fuel chain t (some d) uu = some e) :
